@@ -258,6 +258,28 @@ var moments = ev.Register(&ev.P[momentCase]{
 					ref.Pair(x.m.Day), ref.Pair(x.m.DayEx), ref.Pair(x.m.Time), ref.Pair(x.m.MonthDay), ref.Pair(x.m.MonthEx), ref.Pair(x.m.YearNY), ref.Pair(x.m.YearLC), ref.Pair(x.m.YearEx), d.name, got, want)
 			}
 		}
+		// the hour object, the lunar-year object and the lunar-month object: god directions by their own stem, both Fu schools
+		lt := x.l.GetTime()
+		ly := calendar.NewLunarYear(x.l.GetYear())
+		lmo := calendar.NewLunarMonthFromYm(x.l.GetYear(), x.lm)
+		type posObj struct {
+			name                                   string
+			gan                                    int
+			xi, yang, yin, fu1, fu2, fuDefault, cai string
+			xiD, fuD, caiD                         string
+		}
+		for _, o := range []posObj{
+			{"LunarTime", x.m.Time % 10, lt.GetPositionXi(), lt.GetPositionYangGui(), lt.GetPositionYinGui(), lt.GetPositionFuBySect(1), lt.GetPositionFuBySect(2), lt.GetPositionFu(), lt.GetPositionCai(), lt.GetPositionXiDesc(), lt.GetPositionFuDescBySect(1), lt.GetPositionCaiDesc()},
+			{"LunarYear", x.m.YearNY % 10, ly.GetPositionXi(), ly.GetPositionYangGui(), ly.GetPositionYinGui(), ly.GetPositionFuBySect(1), ly.GetPositionFuBySect(2), ly.GetPositionFu(), ly.GetPositionCai(), ly.GetPositionXiDesc(), ly.GetPositionFuDescBySect(1), ly.GetPositionCaiDesc()},
+			{"LunarMonth", lmo.GetGanIndex(), lmo.GetPositionXi(), lmo.GetPositionYangGui(), lmo.GetPositionYinGui(), lmo.GetPositionFuBySect(1), lmo.GetPositionFuBySect(2), lmo.GetPositionFu(), lmo.GetPositionCai(), lmo.GetPositionXiDesc(), lmo.GetPositionFuDescBySect(1), lmo.GetPositionCaiDesc()},
+		} {
+			k := o.gan + 1
+			if o.xi != LunarUtil.POSITION_XI[k] || o.yang != LunarUtil.POSITION_YANG_GUI[k] || o.yin != LunarUtil.POSITION_YIN_GUI[k] || o.fu1 != LunarUtil.POSITION_FU[k] ||
+				o.fu2 != LunarUtil.POSITION_FU_2[k] || o.fuDefault != o.fu2 || o.cai != LunarUtil.POSITION_CAI[k] || o.xiD != pd(o.xi) || o.fuD != pd(o.fu1) || o.caiD != pd(o.cai) {
+				return fmt.Errorf("%v: %s with stem %s reports god directions %+v, the tables give Xi %s YangGui %s YinGui %s Fu %s/%s Cai %s", c.T, o.name, ref.Gan[o.gan], o,
+					LunarUtil.POSITION_XI[k], LunarUtil.POSITION_YANG_GUI[k], LunarUtil.POSITION_YIN_GUI[k], LunarUtil.POSITION_FU[k], LunarUtil.POSITION_FU_2[k], LunarUtil.POSITION_CAI[k])
+			}
+		}
 		// classical laws
 		if (x.m.Day%12 == x.m.MonthDay%12) != (x.l.GetZhiXing() == LunarUtil.ZHI_XING[1]) {
 			return fmt.Errorf("%v: duty god %q with day branch %s and month branch %s (建 exactly when they coincide)", c.T, x.l.GetZhiXing(), ref.Zhi[x.m.Day%12], ref.Zhi[x.m.MonthDay%12])
